@@ -625,3 +625,7 @@ M('c09-load-compute-on-workers', 'C09', 'E8-ROLES', 'load recomputes only on the
 M('c13-g-before-a-broadcast', 'C13', 'E8-ROLES', 'G eigendecomposition moved before the A broadcast in step()',
   (BP, "                if get_rank() == self._assignment.inv_worker(name, 'A'):\n                    layer.compute_a_inv(damping=self.damping)\n                if (\n                    self._assignment.broadcast_inverses()\n                    and self._assignment.is_grad_worker(name)\n                ):\n                    layer.broadcast_a_inv(\n                        src=self._assignment.inv_worker(name, 'A'),\n                        group=self._assignment.grad_worker_group(name),\n                    )\n                if get_rank() == self._assignment.inv_worker(name, 'G'):\n                    layer.compute_g_inv(damping=self.damping)\n",
        "                if get_rank() == self._assignment.inv_worker(name, 'A'):\n                    layer.compute_a_inv(damping=self.damping)\n                if get_rank() == self._assignment.inv_worker(name, 'G'):\n                    layer.compute_g_inv(damping=self.damping)\n                if (\n                    self._assignment.broadcast_inverses()\n                    and self._assignment.is_grad_worker(name)\n                ):\n                    layer.broadcast_a_inv(\n                        src=self._assignment.inv_worker(name, 'A'),\n                        group=self._assignment.grad_worker_group(name),\n                    )\n"))
+M('c15-pointwise-fastpath', 'C15', 'SIB-PATH', '1x1 fast path that forgets the stride (seed C15-2)',
+  (LM, "        a = self._extract_patches(a)\n        spatial_size = a.size(1) * a.size(2)\n        a = a.view(-1, a.size(-1))", "        if max(self.module.kernel_size) == 1 and max(self.module.padding) == 0:\n            a = a.permute(0, 2, 3, 1)\n        else:\n            a = self._extract_patches(a)\n        spatial_size = a.size(1) * a.size(2)\n        a = a.reshape(-1, a.size(-1))"))
+T('c15-twin-pointwise-fastpath-stride1', 'C15', '1x1, stride 1, unpadded fast path',
+  (LM, "        a = self._extract_patches(a)\n        spatial_size = a.size(1) * a.size(2)\n        a = a.view(-1, a.size(-1))", "        if max(self.module.kernel_size) == 1 and max(self.module.padding) == 0 and max(self.module.stride) == 1:\n            a = a.permute(0, 2, 3, 1)\n        else:\n            a = self._extract_patches(a)\n        spatial_size = a.size(1) * a.size(2)\n        a = a.reshape(-1, a.size(-1))"))
